@@ -282,7 +282,7 @@ for name, inst, tags, tier in [
     ("stats_followup_va_up1_b0", "identities after scope exit / reset_to_start / reset / deallocate", ["fits", "b0"], "quick"),
     ("stats_followup_va_down4_b0", "same, down, MIN_ALIGN 4", ["fits", "b0"], "thorough"),
     ("stats_followup_va_up1_b1", "same with two chunks (reset keeps one)", ["b1"], "thorough"),
-    ("stats_any_followup_va_up1_b1", "type-erased == typed after scope exit / reset_to_start / deallocate with two chunks (the newer chunk keeps a stale position)", ["b1", "stale"], "quick"),
+    ("stats_any_followup_va_up1_b1", "type-erased == typed after scope exit / reset_to_start / deallocate with two chunks (the newer chunk keeps a stale position)", ["b1", "stale"], "thorough"),
     ("stats_any_followup_stateful_down1_b1", "same, stateful allocator, down", ["b1", "stale"], "thorough"),
     ("stats_any_followup_va_down4_b0", "same on one chunk, down, MIN_ALIGN 4", ["fits", "b0"], "thorough"),
     ("stats_claimed_va_up1_b0", "claimed arena reports zeros (typed and type-erased); the guard is coherent", ["fits", "b0"], "quick"),
@@ -305,6 +305,18 @@ for name, inst, tags, tier in [
     ("zero_whole_block_up1", "up", ["up"], "thorough"),
 ]:
     A("zero", name, ["C02"], inst, tags=tags, tier=tier, mem_gb=6, bounds="new, filler L(<=3,1), B = L(<=8,<=8) with one non-zero byte at a symbolic offset, ONE of allocate_zeroed(L(<=16,<=8)) / grow_zeroed(B -> L(<=16,<=8)); every byte of the RETURNED slice beyond the old contents read at a symbolic index; 1 chunk; unwind 6")
+
+# C10 with a stale non-current chunk, one follow-up per harness (light)
+for name, inst, tier in [
+    ("stats_stale_chunk_reset_to_start_va_up1", "chunk 2 created and used, reset_to_start(): any_stats == stats, allocated + remaining == capacity", "quick"),
+    ("stats_stale_chunk_reset_to_va_down1", "same, reset_to(checkpoint in chunk 1), down", "thorough"),
+    ("stats_stale_chunk_reset_to_start_stateful_up1", "same, stateful allocator (48-byte header)", "thorough"),
+]:
+    A("stats2", name, ["C10"], inst, tier=tier, mem_gb=8, timeout_s=2400, bounds="new, checkpoint, L(24,4) => chunk 2, ONE rewind; chunks = 2; unwind 6")
+
+# BumpVec::splice with an exact fit (parked: does not finish, see EXPERIMENTAL)
+for name in ["splice_exact_fit_up1", "splice_exact_fit_down1"]:
+    A("splice", name, ["C08"], "BumpVec<u8> capacity 4, 2 elements, splice(0..1, 3 elements): no reallocation", tier="thorough", mem_gb=16, timeout_s=2400, bounds="concrete shape, symbolic values")
 
 # C18 alignment
 C18B = "new (outer MIN_ALIGN M), filler L(<=5,<=4), aligned::<N> with two allocations L(<=8,<=8) (with budget the first is the concrete L(20,4) => chunk switch while N is in force), allocation after; unwind 6"
@@ -484,6 +496,8 @@ for _n in ["vec_push_grow_up1_newest", "vec_push_grow_down1_newest", "vec_push_g
            "entry_vec_typed_vs_dyn_noshrink_down1"]:
     EXPERIMENTAL[_n] = "BumpVec on the real arena: not decided within 30 min / 20 GB"
 EXPERIMENTAL["fail_retained_mutvecrev_down1"] = "stopped at 13 GB and growing after 12 min (the upward MutBumpVec twin needs 14 GB / 16 min)"
+for _n in ["splice_exact_fit_up1", "splice_exact_fit_down1"]:
+    EXPERIMENTAL[_n] = "BumpVec::splice on the real arena: timeout after 25 min (Splice/Drain drop glue + grow machinery)"
 EXPERIMENTAL["step_down1_switch_grow"] = "out of memory (downward grow into a new chunk: overlapping-copy case split on top of the chunk switch)"
 for _n in ["scope_scoped_down1_b1", "scope_checkpoint_down4_b1", "claim_down8_b1", "aligned_16_to_2_down_b1"]:
     EXPERIMENTAL[_n] = "downward chunk switch inside a scope/claim/aligned region: exceeds 16 GB (DESIGN.md 2.5: downward multi-chunk shapes)"
